@@ -353,3 +353,422 @@ theorem dependsOn_nf : ∀ (f x p : Nat), x < f → NF (dependsOn S f x p)
 end
 
 end Einx.OptDag
+
+namespace Einx.OptDag
+
+/-! ### Pattern decisions: no fuel error, and the tokens of an action are below the tracer it fired on -/
+
+theorem argAt_nf (a : App) (k : Nat) : NF (argAt a k) := by
+  unfold argAt
+  split
+  · exact NF_pure _
+  · exact NF_py _
+
+theorem argAt_mem (a : App) (k : Nat) (v : List Tok) (h : argAt a k = .ok v) : v ∈ a.operands := by
+  unfold argAt at h
+  split at h
+  · rename_i w hw
+    simp only [pure, Except.pure, Except.ok.injEq] at h
+    subst h
+    exact args_mem a _ (List.mem_of_getElem? hw)
+  · cases h
+
+theorem shapeOf_nf (S : Store) (v : List Tok) : NF (S.shapeOf v) := by
+  unfold Store.shapeOf
+  split
+  · split
+    · exact NF_pure _
+    · exact NF_pure _
+    · exact NF_py _
+    · exact NF_py _
+  · exact NF_py _
+
+theorem noopTest_nf (S : Store) (input lit : List Tok) (test : List Nat → List Nat → Bool) : NF (noopTest S input lit test) := by
+  unfold noopTest
+  split
+  · exact NF_bind _ _ (shapeOf_nf S input) (fun _ _ => NF_pure _)
+  · exact NF_pure _
+
+/-- The tokens of an action are tracers below `n` (no nested graphs). -/
+def Action.lt (n : Nat) : Action → Prop
+  | .fwd v => toksLt n v = true
+  | .merge fn x lit => toksLt n fn = true ∧ toksLt n x = true ∧ True
+
+section
+variable (S : Store) (hT : S.topo = true)
+include hT
+
+theorem callOf_lt (v : List Tok) (pat : FnPat) (a : App) (n : Nat) (h : S.callOf v pat = some a) (hv : toksLt n v = true) :
+    a.operandsLt n = true ∧ ∃ f, a.pre = [f] := by
+  unfold Store.callOf at h
+  split at h
+  · rename_i i
+    split at h
+    · rename_i a' base k ha
+      split at h
+      · split at h
+        · rename_i f hp
+          split at h
+          · simp only [Option.some.injEq] at h
+            subst h
+            have hi := toksLt_ref hv
+            exact ⟨operandsLt_mono (Nat.le_of_lt hi) _ (appOf_lt S hT i a' base k ha).1, f, hp⟩
+          · cases h
+        · cases h
+      · cases h
+    · cases h
+  · cases h
+
+theorem unaryCallOf_nf (pat : FnPat) (i : Nat) : NF (unaryCallOf S pat i) := by
+  unfold unaryCallOf
+  split
+  · exact NF_pure _
+  · refine NF_bind _ _ (argAt_nf _ 0) ?_
+    intro input _
+    split
+    · exact NF_pure _
+    · exact NF_bind _ _ (argAt_nf _ 1) (fun _ _ => NF_pure _)
+
+theorem unaryCallOf_lt (pat : FnPat) (i : Nat) (a : App) (input lit : List Tok) (h : unaryCallOf S pat i = .ok (some (a, input, lit))) :
+    a.operandsLt i = true ∧ toksLt i input = true ∧ ∃ f, a.pre = [f] := by
+  unfold unaryCallOf at h
+  split at h
+  · cases h
+  · rename_i a' hc
+    obtain ⟨input', hi, h⟩ := bind_ok.1 h
+    split at h
+    · cases h
+    · obtain ⟨lit', hl, h⟩ := bind_ok.1 h
+      simp only [pure, Except.pure, Except.ok.injEq, Option.some.injEq, Prod.mk.injEq] at h
+      obtain ⟨rfl, rfl, rfl⟩ := h
+      obtain ⟨hlt, hf⟩ := callOf_lt S hT [.ref i] pat a' (i + 1) hc (by simp [toksLt])
+      -- the operands of node `i` itself are below `i`
+      have hlt' : a'.operandsLt i = true := by
+        unfold Store.callOf at hc
+        simp only at hc
+        split at hc
+        · rename_i a'' base k ha
+          split at hc
+          · split at hc
+            · split at hc
+              · simp only [Option.some.injEq] at hc
+                subst hc
+                exact (appOf_lt S hT i a'' base k ha).1
+              · cases hc
+            · cases hc
+          · cases hc
+        · cases hc
+      exact ⟨hlt', operand_lt hlt' _ (argAt_mem _ 0 _ hi), hf⟩
+
+theorem innerCall_nf (pat : FnPat) (input : List Tok) : NF (innerCall S pat input) := by
+  unfold innerCall
+  exact NF_bind _ _ (skipId_nf S hT input) (fun _ _ => NF_pure _)
+
+theorem innerCall_lt (pat : FnPat) (input : List Tok) (a2 : App) (n : Nat) (h : innerCall S pat input = .ok (some a2))
+    (hi : toksLt n input = true) : a2.operandsLt n = true := by
+  unfold innerCall at h
+  obtain ⟨input', h1, h⟩ := bind_ok.1 h
+  simp only [pure, Except.pure, Except.ok.injEq] at h
+  exact (callOf_lt S hT input' pat a2 n h (skipId_lt S hT n input input' h1 hi)).1
+
+theorem decideReshape_nf (pat : FnPat) (i : Nat) : NF (decideReshape S pat i) := by
+  unfold decideReshape
+  refine NF_bind _ _ (unaryCallOf_nf S hT pat i) ?_
+  intro u _
+  split
+  · exact NF_pure _
+  · refine NF_bind _ _ (noopTest_nf S _ _ _) ?_
+    intro b _
+    split
+    · exact NF_pure _
+    · refine NF_bind _ _ (innerCall_nf S hT pat _) ?_
+      intro r _
+      split
+      · refine NF_bind _ _ (argAt_nf _ 0) ?_
+        intro ioi _
+        split
+        · split
+          · exact NF_pure _
+          · exact NF_unsupported _
+        · exact NF_pure _
+      · exact NF_pure _
+
+theorem decideReshape_lt (pat : FnPat) (i : Nat) (act : Action) (h : decideReshape S pat i = .ok (some act)) : act.lt i := by
+  unfold decideReshape at h
+  obtain ⟨u, hu, h⟩ := bind_ok.1 h
+  split at h
+  · cases h
+  · rename_i a input shape
+    obtain ⟨hlt, hin, _⟩ := unaryCallOf_lt S hT pat i a input shape hu
+    obtain ⟨noop, _, h⟩ := bind_ok.1 h
+    split at h
+    · simp only [pure, Except.pure, Except.ok.injEq, Option.some.injEq] at h
+      subst h; exact hin
+    · obtain ⟨inner, hinner, h⟩ := bind_ok.1 h
+      split at h
+      · rename_i a2
+        obtain ⟨ioi, hioi, h⟩ := bind_ok.1 h
+        split at h
+        · rename_i f hf
+          split at h
+          · simp only [pure, Except.pure, Except.ok.injEq, Option.some.injEq] at h
+            subst h
+            have h2 := innerCall_lt S hT pat input a2 i hinner hin
+            exact ⟨operand_lt hlt f (pre_mem a _ (by simp [hf])), operand_lt h2 _ (argAt_mem _ 0 _ hioi), trivial⟩
+          · cases h
+        · cases h
+      · cases h
+
+theorem decideTranspose_nf (pat : FnPat) (i : Nat) : NF (decideTranspose S pat i) := by
+  unfold decideTranspose
+  refine NF_bind _ _ (unaryCallOf_nf S hT pat i) ?_
+  intro u _
+  split
+  · exact NF_pure _
+  · refine NF_bind _ _ (noopTest_nf S _ _ _) ?_
+    intro b _
+    split
+    · exact NF_pure _
+    · refine NF_bind _ _ (innerCall_nf S hT pat _) ?_
+      intro r _
+      split
+      · refine NF_bind _ _ (argAt_nf _ 0) ?_
+        intro ioi _
+        refine NF_bind _ _ (argAt_nf _ 1) ?_
+        intro perm1 _
+        split
+        · split
+          · split
+            · split
+              · exact NF_pure _
+              · exact NF_unsupported _
+            · exact NF_pure _
+          · exact NF_py _
+        · exact NF_unsupported _
+      · exact NF_pure _
+
+theorem decideTranspose_lt (pat : FnPat) (i : Nat) (act : Action) (h : decideTranspose S pat i = .ok (some act)) : act.lt i := by
+  unfold decideTranspose at h
+  obtain ⟨u, hu, h⟩ := bind_ok.1 h
+  split at h
+  · cases h
+  · rename_i a input perm
+    obtain ⟨hlt, hin, _⟩ := unaryCallOf_lt S hT pat i a input perm hu
+    obtain ⟨noop, _, h⟩ := bind_ok.1 h
+    split at h
+    · simp only [pure, Except.pure, Except.ok.injEq, Option.some.injEq] at h
+      subst h; exact hin
+    · obtain ⟨inner, hinner, h⟩ := bind_ok.1 h
+      split at h
+      · rename_i a2
+        obtain ⟨ioi, hioi, h⟩ := bind_ok.1 h
+        obtain ⟨perm1, _, h⟩ := bind_ok.1 h
+        split at h
+        · split at h
+          · split at h
+            · rename_i f hf
+              split at h
+              · simp only [pure, Except.pure, Except.ok.injEq, Option.some.injEq] at h
+                subst h
+                have h2 := innerCall_lt S hT pat input a2 i hinner hin
+                exact ⟨operand_lt hlt f (pre_mem a _ (by simp [hf])), operand_lt h2 _ (argAt_mem _ 0 _ hioi), trivial⟩
+              · cases h
+            · cases h
+          · cases h
+        · cases h
+      · cases h
+
+theorem decideBroadcast_nf (pat : FnPat) (i : Nat) : NF (decideBroadcast S pat i) := by
+  unfold decideBroadcast
+  refine NF_bind _ _ (unaryCallOf_nf S hT pat i) ?_
+  intro u _
+  split
+  · exact NF_pure _
+  · refine NF_bind _ _ (noopTest_nf S _ _ _) ?_
+    intro b _
+    split
+    · exact NF_pure _
+    · exact NF_pure _
+
+theorem decideBroadcast_lt (pat : FnPat) (i : Nat) (act : Action) (h : decideBroadcast S pat i = .ok (some act)) : act.lt i := by
+  unfold decideBroadcast at h
+  obtain ⟨u, hu, h⟩ := bind_ok.1 h
+  split at h
+  · cases h
+  · rename_i a input shape
+    obtain ⟨_, hin, _⟩ := unaryCallOf_lt S hT pat i a input shape hu
+    obtain ⟨noop, _, h⟩ := bind_ok.1 h
+    split at h
+    · simp only [pure, Except.pure, Except.ok.injEq, Option.some.injEq] at h
+      subst h; exact hin
+    · cases h
+
+omit hT in
+theorem decideConcat_nf (pat : FnPat) (i : Nat) : NF (decideConcat S pat i) := by
+  unfold decideConcat
+  split
+  · exact NF_pure _
+  · refine NF_bind _ _ (argAt_nf _ 0) ?_
+    intro t _
+    split
+    · split
+      · exact NF_pure _
+      · exact NF_pure _
+    · split
+      · exact NF_pure _
+      · exact NF_pure _
+    · exact NF_pure _
+
+theorem decideConcat_lt (pat : FnPat) (i : Nat) (act : Action) (h : decideConcat S pat i = .ok (some act)) : act.lt i := by
+  unfold decideConcat at h
+  split at h
+  · cases h
+  · rename_i a hc
+    obtain ⟨tensors, ht, h⟩ := bind_ok.1 h
+    have hlt : a.operandsLt i = true := by
+      unfold Store.callOf at hc
+      simp only at hc
+      split at hc
+      · rename_i a'' base k ha
+        split at hc
+        · split at hc
+          · split at hc
+            · simp only [Option.some.injEq] at hc
+              subst hc
+              exact (appOf_lt S hT i a'' base k ha).1
+            · cases hc
+          · cases hc
+        · cases hc
+      · cases hc
+    have hten := operand_lt hlt _ (argAt_mem _ 0 _ ht)
+    have tail : ∀ (t : Tok) (rest : List Tok), tensors = t :: rest → toksLt i rest = true := by
+      intro t rest e
+      subst e
+      simp only [toksLt, List.all_cons, Bool.and_eq_true] at hten ⊢
+      exact hten.2
+    split at h
+    · rename_i n rest
+      split at h
+      · simp only [pure, Except.pure, Except.ok.injEq, Option.some.injEq] at h
+        subst h; exact tail _ rest rfl
+      · cases h
+    · rename_i n rest
+      split at h
+      · simp only [pure, Except.pure, Except.ok.injEq, Option.some.injEq] at h
+        subst h; exact tail _ rest rfl
+      · cases h
+    · cases h
+
+omit hT in
+theorem decideCast_nf (i : Nat) : NF (decideCast S i) := by
+  unfold decideCast
+  split
+  · split
+    · split
+      · split
+        · exact NF_pure _
+        · exact NF_pure _
+      · exact NF_pure _
+    · exact NF_pure _
+  · exact NF_pure _
+
+theorem decideCast_lt (i : Nat) (act : Action) (h : decideCast S i = .ok (some act)) : act.lt i := by
+  unfold decideCast at h
+  split at h
+  · rename_i a base k ha
+    obtain ⟨hlt, _⟩ := appOf_lt S hT i a base k ha
+    split at h
+    · split at h
+      · rename_i j hp
+        split at h
+        · simp only [pure, Except.pure, Except.ok.injEq, Option.some.injEq] at h
+          subst h
+          exact operand_lt hlt _ (pre_mem a _ (by simp [hp]))
+        · cases h
+      · cases h
+    · cases h
+  · cases h
+
+theorem decideInline_nf (k : Nat) : NF (decideInline S (S.nodes.length + 1) k) := by
+  unfold decideInline
+  split
+  · exact NF_unsupported _
+  · rename_i g hg
+    refine NF_bind _ _ (skipId_nf S hT _) ?_
+    intro output _
+    split
+    · split
+      · split
+        · refine NF_bind _ _ (NF_mapM _ _ (fun v _ => skipId_nf S hT v)) ?_
+          intro fins _
+          split
+          · exact NF_pure _
+          · split
+            · rename_i f hf
+              refine NF_bind _ _ ?_ ?_
+              · split
+                · rename_i fi
+                  refine NF_anyM _ _ ?_
+                  intro i _
+                  by_cases hfi : fi < S.nodes.length + 1
+                  · exact dependsOn_nf S hT _ fi i hfi
+                  · -- a dangling function reference has no origin: `depends_on` returns at once
+                    unfold dependsOn
+                    split
+                    · exact NF_pure _
+                    · have : S.appOf fi = none := by
+                        unfold Store.appOf
+                        have : S.nodes[fi]? = none := List.getElem?_eq_none (by omega)
+                        simp [this]
+                      simp only [this]
+                      exact NF_pure _
+                · exact NF_pure _
+              · intro dep _
+                split
+                · exact NF_pure _
+                · exact NF_pure _
+            · exact NF_unsupported _
+        · exact NF_pure _
+      · exact NF_pure _
+    · exact NF_pure _
+
+theorem firstMatch_nf : ∀ (ps : List Pattern) (x : Tok), NF (firstMatch S (S.nodes.length + 1) ps x)
+  | [], _ => by unfold firstMatch; exact NF_pure _
+  | p :: ps, x => by
+    unfold firstMatch
+    refine NF_bind _ _ ?_ ?_
+    · unfold Pattern.decide
+      split
+      · exact decideReshape_nf S hT _ _
+      · exact decideTranspose_nf S hT _ _
+      · exact decideBroadcast_nf S hT _ _
+      · exact decideConcat_nf S _ _
+      · exact decideInline_nf S hT _
+      · exact decideCast_nf S _
+      · exact NF_pure _
+    · intro r _
+      split
+      · exact NF_pure _
+      · exact firstMatch_nf ps x
+
+theorem firstMatch_lt (fuel : Nat) : ∀ (ps : List Pattern) (i : Nat) (act : Action), firstMatch S fuel ps (.ref i) = .ok (some act) → act.lt i
+  | [], i, act, h => by simp [firstMatch, pure, Except.pure] at h
+  | p :: ps, i, act, h => by
+    unfold firstMatch at h
+    obtain ⟨r, hr, h⟩ := bind_ok.1 h
+    split at h
+    · rename_i act'
+      simp only [pure, Except.pure, Except.ok.injEq, Option.some.injEq] at h
+      subst h
+      cases p with
+      | skipReshape pat => exact decideReshape_lt S hT pat i _ (by simpa [Pattern.decide] using hr)
+      | skipTranspose pat => exact decideTranspose_lt S hT pat i _ (by simpa [Pattern.decide] using hr)
+      | skipBroadcastTo pat => exact decideBroadcast_lt S hT pat i _ (by simpa [Pattern.decide] using hr)
+      | skipConcatenate pat => exact decideConcat_lt S hT pat i _ (by simpa [Pattern.decide] using hr)
+      | inlineGraph => simp [Pattern.decide, pure, Except.pure] at hr
+      | skipCast => exact decideCast_lt S hT i _ (by simpa [Pattern.decide] using hr)
+    · exact firstMatch_lt fuel ps i act h
+
+end
+
+end Einx.OptDag
